@@ -312,6 +312,26 @@ def check_tree(tree, freqs, st, viol, keys, label):
                 bad("C01/array-vs-single", f"element {e_obj.get_symbol()}: array {za[:2]} vs single {zs[:2]}")
         except Exception:
             pass
+    # history clause: after a parameter of a (nested) element is changed through the public setter, the SAME circuit
+    # object must report the composition of the NEW part impedances (no stale state)
+    if "objects" in oks:
+        els = c_obj.generate_element_identifiers(running=True)
+        for e in list(els)[::-1][:2]:
+            k = next(iter(e.get_values()))
+            v = e.get_value(k)
+            trial = v * 1.37 if v not in (0.0,) else 0.5
+            if not (e.get_lower_limit(k) <= trial <= e.get_upper_limit(k)) or not np.isfinite(trial):
+                continue
+            e.set_values(k, trial)
+            ref2 = Ref(st, freqs)
+            rv2 = ref2.eval_all(tree, top_obj)
+            kind2, out2 = _lib(c_obj, freqs)
+            st["recheck_after_set_values"] = st.get("recheck_after_set_values", 0) + 1
+            if kind2 == "ok" and not any(v2 is None or v2 == OO or not np.isfinite(v2) for v2 in rv2):
+                if not all(_close(complex(a), b) for a, b in zip(out2, rv2)):
+                    bad("C01/stale-after-set_values", f"after {e.get_symbol()}.set_values({k}={trial:g}) the circuit reports {out2[:2]} but its parts compose to {rv2[:2]}")
+            e.set_values(k, v)
+            break
     # every nested connection of the main tree obeys the laws on its own (Connection.get_impedances)
     for sub_node, sub_obj in list(_nested(tree, top_obj))[:6]:
         r3 = Ref(st, freqs[:4])
